@@ -45,13 +45,13 @@ def _run_chunk(ctx, jobs, timeout):
     return res
 
 
-def run_batch(ctx, jobs, timeout=300):
+def run_batch(ctx, jobs, timeout=300, label="impl_batch"):
     """jobs: [(args, cwd)]; results in order.  Split over VERIF_PAR processes."""
     if not jobs:
         return []
     n = min(par(), len(jobs))
     chunks = [jobs[i::n] for i in range(n)]
-    with ctx.timed("impl"):
+    with ctx.timed(label):
         with ThreadPoolExecutor(max_workers=n) as ex:
             outs = list(ex.map(lambda c: _run_chunk(ctx, c, timeout), chunks))
     res = [None] * len(jobs)
@@ -69,7 +69,7 @@ def crosscheck(ctx, jobs, results, k=5):
     def one(i):
         args, cwd = jobs[i]
         return mlr_run(ctx, args, b"", timeout=120, cwd=cwd)
-    with ctx.timed("impl"):
+    with ctx.timed("impl_crosscheck_binary"):
         with ThreadPoolExecutor(max_workers=par()) as ex:
             bins = list(ex.map(one, pick))
     diffs = []
